@@ -123,21 +123,37 @@ def make_spec(lang, seed, switches, max_depth, cap, erasure_options=None):
 
 
 def make_specs(run, quick):
-    """the grid, interleaved so that a budget cut leaves every (language, switch, depth) class represented"""
+    """the grid (languages x switch settings x seeds x max_depth), ordered so that a budget cut leaves every
+    (language, switch setting) class and every depth represented: per depth the runs are interleaved over seeds,
+    switches and languages; the depths are merged by a fixed weighted round robin (deep programs cost minutes
+    each on a loaded machine: they get fewer slots per round, not none)"""
     if quick:
-        langs, sws, nseeds, depths, cap = pipeline.LANGS, QUICK_SWITCHES, 8, (3, 6), 60
+        langs, sws, nseeds, cap = pipeline.LANGS, QUICK_SWITCHES, 8, 60
+        weights = [(3, 5), (6, 3)]
     else:
-        langs, sws, nseeds, depths, cap = pipeline.LANGS, pipeline.all_switch_settings(), 60, (3, 6, 8, 10), 600
+        langs, sws, nseeds, cap = pipeline.LANGS, pipeline.all_switch_settings(), 60, 300
+        weights = [(3, 6), (6, 5), (8, 3), (10, 2)]
     base = run.rng.randrange(1, 10 ** 6) if run.seed else 1000
-    specs = []
-    for si in range(nseeds):
-        for di, md in enumerate(depths):
+    per_depth = {}
+    for di, (md, _w) in enumerate(weights):
+        lst = []
+        for si in range(nseeds):
             for wi, sw in enumerate(sws):
                 for li, lang in enumerate(langs):
                     seed = base + si * 7919 + di * 101 + wi * 13 + li
                     # a small cap on the erasure search in a quarter of the runs: the `max_combinations` cut
                     eo = {"max_combinations": 3} if (si + wi + li) % 4 == 3 else {}
-                    specs.append(make_spec(lang, seed, sw, md, cap, eo))
+                    lst.append(make_spec(lang, seed, sw, md, cap, eo))
+        per_depth[md] = lst
+    specs, pos = [], {md: 0 for md, _ in weights}
+    pattern = []
+    for k in range(max(w for _, w in weights)):
+        pattern += [md for md, w in weights if k < w]
+    while any(pos[md] < len(per_depth[md]) for md, _ in weights):
+        for md in pattern:
+            if pos[md] < len(per_depth[md]):
+                specs.append(per_depth[md][pos[md]])
+                pos[md] += 1
     return specs
 
 
@@ -524,7 +540,8 @@ def check(run):
     # the pipeline
     acc = Acc()
     specs = make_specs(run, quick)
-    budget = 100 if quick else 1500
+    # absolute deadline (the build before it may take 20 s or, after a change of the table, 2 min)
+    budget = max(30, run.t0 + (145 if quick else 1620) - time.time())
     t0 = time.time()
     done = run_pipeline(run, specs, budget, acc, b[0]["sameDepth"])
     run.cov["pipeline_runs_planned"] = len(specs)
